@@ -147,6 +147,18 @@ def run_shard(shard, tier, seed, wd, res):
             s.op(gp + ".msm_pre256", A(0, pl), K(0, kl), V.n(1 + (pl + kl) % 3))
             for w in (1, 2, 5, 9, 12):
                 s.op(gp + ".msm_pip", A(0, pl), K(0, kl), V.n(w))
+        # relations BETWEEN list entries, with matched and mismatched lengths: all scalars equal, all scalars 1, all
+        # points equal, scalars of the form small + j*2^(64 i)
+        kk_ = rng.getrandbits(254) | 1
+        odd = [V.RR(v) for v in (1 + (5 << 192), 1 + (1 << 64), 2 + (7 << 128), (1 << 192) | 1, 1, 1 + ((1 << 62) << 192))]
+        for (pl, kl) in ((2, 2), (3, 3), (5, 3), (3, 5), (7, 2), (2, 7), (24, 21), (21, 24)):
+            for kl_ in (V.lst([V.RR(kk_)] * kl), V.lst([V.RR(1)] * kl), V.lst([odd[i % len(odd)] for i in range(kl)])):
+                s.op(gp + ".msm", A(0, pl), kl_)
+                s.op(gp + ".msm_pip", A(0, pl), kl_, V.n(rng.choice([2, 3, 5, 7])))
+                s.op(gp + ".msm_pre256", A(0, pl), kl_, V.n(rng.randrange(4)))
+            same = V.lst([V.aff(g, pts[3])] * pl)
+            s.op(gp + ".msm", same, K(0, kl))
+            s.op(gp + ".msm_pip", same, K(0, kl), V.n(4))
         # special entries (identity, a repeated point, a pair of inverse points) at every position x every table layout
         O_ = V.aff(g, None)
         cc = E1 if g == 1 else E2
